@@ -31,7 +31,7 @@ ASSUMPTIONS = [
 PROBES = ["dirruns", "inputs_ge_3", "cross_file_var_ref", "stale_output_present", "repeat_run_checked", "enum_runs",
           "fault:non-utf8", "fault:empty", "fault:dir-named-css", "fault:dangling-link", "fault:unserialisable",
           "fault:eacces", "fault:eio", "fault:late-unserialisable", "fault:out-is-dir", "fault:eacces-out",
-          "fault_first", "fault_middle", "fault_last", "cm_named_input_present", "late_fault_defines_props_others_reference", "symlinked_stylesheet_input", "duplicate_content_files", "same_translucent_text_in_several_files", "bom_files", "dirruns_in_one_process",
+          "fault_first", "fault_middle", "fault_last", "cm_named_input_present", "late_fault_defines_props_others_reference", "symlinked_stylesheet_input", "duplicate_content_files", "same_translucent_text_in_several_files", "bom_files", "dirruns_in_one_process", "dirruns_stderr_none", "dirruns_in_thread", "dirruns_fd_headroom",
           "outputs_compared"]
 
 FAULT_KINDS = ("non-utf8", "empty", "dir-named-css", "dangling-link", "unserialisable", "eacces", "eio",
@@ -42,7 +42,7 @@ LATE_KINDS = ("late-unserialisable", "out-is-dir", "eacces-out")
 C18_FEATURES = ("vars", "var-fallback", "var-undefined", "var-chain", "var-shared", "root-direct-color", "root-and-html",
                 "important", "repeat-decl", "nesting", "bg-var", "keywords", "comments", "no-color-rules", "opaque-atrules",
                 "non-ascii", "alpha-text", "bom", "crlf", "var-names", "own-colour-elsewhere")
-_NAMES = ("a.css", "b.css", "main.css", "style.css", "thème.css", "my style.css", "z9.css", "reset.min.css", "c_cm2.css", ".hidden.css", "a.b.c.css")
+_NAMES = ("a.css", "b.css", "main.css", "style.css", "thème.css", "the\u0300me.css", "cafe\u0301.css", "my style.css", "z9.css", "reset.min.css", "c_cm2.css", ".hidden.css", "a.b.c.css")
 _DIRS = ("", "", "sub/", "sub/deep/", "x.d/", "v1.css/", "pkg_cm.css/", "sub dir/", "theme[v2]/", "a*b/", "q?/.cfg/")
 _UNSER = ("a{} }", "}", "a{color:#777} ]", "@media x{ a{color:#777} } }\n.b{color:#888}")
 _NONUTF8 = ("fffe41", "612063c3286b7d", "80", "c0af", "7b636f6c6f723a23373737ff7d")
@@ -106,7 +106,10 @@ def generate(rseed, tier, idx):
     e = stream(rseed, "env")
     o = stream(rseed, "order")
     fr = stream(rseed, "faults")
-    env = {"cwd": e.choice(("cwd", "cwd", "tree", "tree/sub")), "tty": e.random() < 0.3, "argform": e.choice(("abs", "abs", "rel", "noarg"))}
+    env = {"cwd": e.choice(("cwd", "cwd", "tree", "tree/sub")), "tty": e.random() < 0.3, "argform": e.choice(("abs", "abs", "rel", "noarg")),
+           # where the command runs: stderr closed at start-up (cm-colors dir 2>&-, cron/daemon launchers: sys.stderr is None),
+           # called from a worker thread, a process that may only hold a few more file descriptors than it has now
+           "stderr_none": e.random() < 0.1, "in_thread": e.random() < 0.1, "fd_headroom": e.choice((None, None, None, 8, 12))}
     enum = idx % 2 == 1
     base_settings = _settings(g)
     nfiles = g.randint(1, 3) if enum else g.randint(1, 6)
@@ -436,6 +439,9 @@ def execute(trace):
             after = seams.snapshot(tdir)
             steps_n += len(res["io"])
             bump("dirruns")
+            for kf in ("stderr_none", "in_thread", "fd_headroom"):
+                if env.get(kf):
+                    bump("dirruns_" + kf)
             if any(trace["tree"].get(r, {}).get("defines") for r in inputs) and any(trace["tree"].get(r, {}).get("xref") for r in inputs):
                 bump("late_fault_defines_props_others_reference")
             if len(inputs) >= 3:
@@ -488,7 +494,7 @@ def execute(trace):
                     if ("tree/" + rel) not in opened:
                         V("run-stopped", si, file=rel, note="input never opened during the directory run",
                           order=order_seen)
-                    if exp["errors"]:
+                    if exp["errors"] and not env.get("stderr_none"):  # (with stderr closed there is nowhere to report to)
                         if ("<SBX>/tree/" + rel) not in errs:
                             V("bad-file-not-reported", si, file=rel, stderr_paths=sorted(errs))
             for p in sorted(opened):
@@ -542,12 +548,42 @@ def _show(ent):
     return list(ent)
 
 
+_FD_LIMIT = None
+
+
+def _fd_limit(headroom):
+    """The descriptor limit that leaves `headroom` free slots above what this process holds at its FIRST directory run
+    (fixed for the life of the process: descriptors a run fails to give back eat into it)."""
+    global _FD_LIMIT
+    if _FD_LIMIT is None:
+        free, lim = 0, 0
+        while free < headroom:
+            try:
+                os.fstat(lim)
+            except OSError:
+                free += 1
+            lim += 1
+        _FD_LIMIT = lim
+    return _FD_LIMIT
+
+
 def _dir_exec(root, target_rel, settings, env, order_key, faults):
     ok = order_key
     if isinstance(order_key, tuple) and order_key[0] == "list":
         ok = _ListOrder(order_key[1])
-    res = cli_run.cli_exec(root, target_rel, settings, cwd_rel=env["cwd"], order_key=ok, faults=faults,
-                           tty=env["tty"], argform=env["argform"])
+    old = None
+    if env.get("fd_headroom"):
+        import resource
+
+        old = resource.getrlimit(resource.RLIMIT_NOFILE)
+        resource.setrlimit(resource.RLIMIT_NOFILE, (min(_fd_limit(env["fd_headroom"]), old[0]), old[1]))
+    try:
+        res = cli_run.cli_exec(root, target_rel, settings, cwd_rel=env["cwd"], order_key=ok, faults=faults,
+                               tty=env["tty"], argform=env["argform"], in_thread=bool(env.get("in_thread")),
+                               stderr_none=bool(env.get("stderr_none")))
+    finally:
+        if old is not None:
+            resource.setrlimit(resource.RLIMIT_NOFILE, old)
     return res
 
 
